@@ -7,6 +7,7 @@ import pathlib
 from vf import core
 from vf.core import clist, cn, ctup
 from vf.translate import core as T
+from vf import grouppass
 from vf.harness import histories, monitors
 from vf.harness import world as w
 
@@ -55,6 +56,10 @@ def proofs(ctx):
         files = None
     if files:
         core.check_tie(ctx, files, ["Tie_C01"])
+    try:
+        grouppass.pin()
+    except T.Untranslatable as e:
+        ctx.broke("translator", "UpdateableGroup.update / update_pull", str(e))
     core.check_property_file(ctx, "C01.v")
 
 
@@ -223,6 +228,7 @@ def late_corpus():
 
 def explore(ctx):
     explore_direct(ctx, 250 if ctx.quick() else 5000)
+    grouppass.explore(ctx, 80 if ctx.quick() else 2000)
     base = ctx.tmp() / "sim"
     for spec, ops in late_corpus():
         run_hist(ctx, base, spec, ops, {"scenario": "late-operator"})
